@@ -338,16 +338,48 @@ def classify_failure(h, r):
     return "undecided", soft or [{"description": "FAILED without a listed check"}]
 
 
-def concrete_playback(h, timeout=900):
+def concrete_playback(h, timeout=1800):
     """re-runs one failing harness asking Kani for a concrete counterexample, returns the generated unit test text (or None)"""
     cmd = ["cargo", "kani"] + KANI_FLAGS + ["-Z", "concrete-playback", "--concrete-playback=print", "--exact", "--harness", h.full,
                                             "--output-format", "terse"]
     with _Lock():
         rc, out, wall = sh(cmd, cwd=REPO, env=_kani_env(), timeout=timeout)
-    m = re.search(r"Concrete playback unit test for `[^`]*`:\s*```\s*\n(.*?)```", out, re.S)
-    if m:
-        return m.group(1), out
+    blocks = re.findall(r"Concrete playback unit test for `[^`]*`:\s*```\s*\n(.*?)```", out, re.S)
+    failing = [b for b in blocks if "Check for `cover`" not in b]       # Kani also prints witnesses of satisfied cover properties
+    if failing:
+        return failing[0], out
     return None, out
+
+
+def native_playback(h, test_text, timeout=1500):
+    """executes Kani's concrete-playback unit test NATIVELY against the real code (rustc-compiled, `cargo kani playback`): the test is spliced
+    behind the harness function in a scratch copy of /verif/kani (the crate includes the harness texts through REACTIVE_MUTINY_VERIF_DIR).
+    -> (outcome: 'reproduced' | 'not-reproduced' | 'error', text)"""
+    import shutil
+    from . import rustlex as lx
+    m = re.search(r"fn (kani_concrete_playback_\w+)", test_text)
+    if not m:
+        return "error", "no test function in the playback text"
+    scratch = os.path.join(CACHE, "playback", f"{os.getpid()}")
+    shutil.rmtree(scratch, ignore_errors=True)
+    shutil.copytree(KANI_DIR, os.path.join(scratch, "kani"))
+    f = os.path.join(scratch, "kani", h.file + ".rs")
+    text = read(f)
+    hit = lx.find_fn(text, h.fn, None, lx.mask(text))
+    if not hit:
+        return "error", f"harness fn {h.fn} not found in {f}"
+    _s, _bo, bc = hit
+    write(f, text[:bc + 1] + "\n" + test_text + "\n" + text[bc + 1:])
+    name = (h.size + "::" if h.size else "") + m.group(1)
+    env = dict(_kani_env(), REACTIVE_MUTINY_VERIF_DIR=scratch, CARGO_TARGET_DIR=os.path.join(CACHE, "kani-playback-target-" + repo_tag()), RUST_BACKTRACE="0")
+    rc, out, wall = sh(["cargo", "kani", "playback", "-Z", "concrete-playback", "--", name], cwd=REPO, env=env, timeout=timeout)
+    shutil.rmtree(scratch, ignore_errors=True)
+    panic = re.findall(r"panicked at ([^\n]*):\n([^\n]*)", out)
+    if re.search(r"test result: FAILED", out) and panic:
+        return "reproduced", "; ".join(f"{loc}: {msg}" for loc, msg in panic[:3]) + f"   [native run of {name}, {wall:.0f}s]"
+    if re.search(r"test result: ok\. 1 passed", out):
+        return "not-reproduced", f"the native run of {name} did not panic (the failed check may be one that only the symbolic engine evaluates, e.g. a pointer-validity check)"
+    return "error", out[-1500:]
 
 
 def warm():
